@@ -472,7 +472,7 @@ def _by_angle(ctx, prog):
                 and e.data["name"] == ".extend"]
         ctx.require(len(exts) == 1, "angle/all-pairs: extend not found")
         comp = exts[0].data["args"][0]
-        masks = [x for x in comp.walk() if is_call_to(x, "numpy.argwhere")]
+        masks = [x for x in comp.walk() if is_call_to(x, "numpy.argwhere", "numpy.flatnonzero")]
         okm = False
         if len(masks) == 1 and masks[0].args[1]:
             m = masks[0].args[1][0]
